@@ -1,6 +1,7 @@
 ----------------------------- MODULE GenConn -----------------------------
 (* Script generator for C40: Conn plus a history.  A script is a sequence of steps   *)
 (* (client frames and handler steps); every step carries                             *)
+(* (for syn steps x is the declared content-length, -1 = none)                       *)
 (*   allowed : Layer P -- the set of outcomes the draft permits for this frame,      *)
 (*   m       : Layer M -- the outcome the model takes,                               *)
 (*   exp     : the observable state after the step: Layer-P bounds (started, consC /  *)
@@ -33,17 +34,19 @@ Rec(a, id, x, f, allowed, why) ==
 GInit == Init /\ hist = <<>> /\ fin = FALSE /\ noise = 0
 
 GNext ==
-  \/ \E id \in IDS, f \in BOOLEAN : Syn(id, f) /\ Rec("syn", id, 0, f, AllowedSyn(id), WhySyn(id))
-  \/ \E id \in IDS, f \in BOOLEAN : SynBad(id, f) /\ Rec("synbad", id, 0, f, AllowedSynBad(id), WhySynBad(id))
-  \/ \E id \in IDS, len \in DSIZES, f \in BOOLEAN : Data(id, len, f) /\ Rec("data", id, len, f, AllowedData(id, len), WhyData(id, len))
-  \/ \E id \in IDS \cup {0}, d \in WUDS : Wu(id, d) /\ Rec("wu", id, d, FALSE, AllowedWu(id, d), WhyWu(id, d))
-  \/ \E id \in IDS : RstC(id) /\ Rec("rst", id, 0, FALSE, AllowedRst(id), WhyRst(id))
-  \/ \E v \in IWS : Settings(v) /\ Rec("settings", 0, v, FALSE, AllowedSettings(v), WhySettings(v))
-  \/ \E k \in {"ping", "goaway", "headers"} : Other(k) /\ Rec(k, 1, 0, FALSE, {"acc"}, k)
-  \/ \E id \in IDS, k \in DSIZES : HRead(id, k) /\ Rec("hread", id, k, FALSE, {"acc"}, "hread")
-  \/ \E id \in IDS : HReply(id) /\ Rec("hreply", id, 0, FALSE, {"acc"}, "hreply")
-  \/ \E id \in IDS, k \in HWRITES : HWrite(id, k) /\ Rec("hwrite", id, k, FALSE, {"acc"}, "hwrite")
-  \/ \E id \in IDS : HFinish(id) /\ Rec("hfinish", id, 0, FALSE, {"acc", Tok(RstCancel)}, "hfinish:" \o State(id))
+  \/ \E id \in IDS, f \in BOOLEAN, cl \in CLS \cup {NoCL} : Syn(id, f, cl) /\ Rec("syn", id, cl, f, AllowedSyn(id), WhySyn(id))
+  \/ /\ UNCHANGED decl
+     /\ \/ \E id \in IDS, f \in BOOLEAN : SynBad(id, f) /\ Rec("synbad", id, 0, f, AllowedSynBad(id), WhySynBad(id))
+        \/ \E id \in IDS, len \in DSIZES, f \in BOOLEAN :
+               Data(id, len, f) /\ Rec("data", id, len, f, AllowedData(id, len, f), WhyData(id, len, f))
+        \/ \E id \in IDS \cup {0}, d \in WUDS : Wu(id, d) /\ Rec("wu", id, d, FALSE, AllowedWu(id, d), WhyWu(id, d))
+        \/ \E id \in IDS : RstC(id) /\ Rec("rst", id, 0, FALSE, AllowedRst(id), WhyRst(id))
+        \/ \E v \in IWS : Settings(v) /\ Rec("settings", 0, v, FALSE, AllowedSettings(v), WhySettings(v))
+        \/ \E k \in {"ping", "goaway", "headers"} : Other(k) /\ Rec(k, 1, 0, FALSE, {"acc"}, k)
+        \/ \E id \in IDS, k \in DSIZES : HRead(id, k) /\ Rec("hread", id, k, FALSE, {"acc"}, "hread")
+        \/ \E id \in IDS : HReply(id) /\ Rec("hreply", id, 0, FALSE, {"acc"}, "hreply")
+        \/ \E id \in IDS, k \in HWRITES : HWrite(id, k) /\ Rec("hwrite", id, k, FALSE, {"acc"}, "hwrite")
+        \/ \E id \in IDS : HFinish(id) /\ Rec("hfinish", id, 0, FALSE, {"acc", Tok(RstCancel)}, "hfinish:" \o State(id))
   \/ /\ ~Alive /\ ~fin /\ fin' = TRUE /\ UNCHANGED <<vars, hist, noise>>
 
 Emit == fin => PrintT(ToJson([steps |-> hist]))
